@@ -597,34 +597,55 @@ func c11Recursion(w *World, r *Report) {
 	// include cycles: the graph handed to the sorter covers every submodule of the module
 	vmi := w.Method("compile", "Compiler", "VerifyModuleIncludes")
 	ifd, _ := w.FuncDecl(vmi)
-	subsParam := paramObj(p, ifd, 1)
 	covers := false
-	ast.Inspect(ifd.Body, func(x ast.Node) bool {
-		rs, ok := x.(*ast.RangeStmt)
-		if !ok || objOfIdent(p, rs.X) != subsParam {
-			return true
-		}
-		// every iteration adds the submodule's include edges (no filtering before)
-		if len(rs.Body.List) > 0 {
-			if inner, ok := rs.Body.List[0].(*ast.RangeStmt); ok {
-				adds := false
-				ast.Inspect(inner.Body, func(y ast.Node) bool {
-					if ce, ok := y.(*ast.CallExpr); ok {
-						if f := calleeOf(p, ce); f != nil && nm(f) == "AddEdge" {
-							adds = true
+	if vf := w.SSAFunc(vmi); vf != nil && len(vf.Params) == 3 {
+		subs := vf.Params[2]
+		// the loop over the submodules handed in: every iteration collects that submodule's includes (asks for
+		// its include statements, here or in a helper that adds the edges)
+		for _, l := range ssaLoops(vf) {
+			overSubs := false
+			for _, in := range l.Header.Instrs {
+				if nx, ok := in.(*ssa.Next); ok {
+					if rg, ok := nx.Iter.(*ssa.Range); ok && rg.X == ssa.Value(subs) {
+						overSubs = true
+					}
+				}
+			}
+			if !overSubs {
+				continue
+			}
+			body := l.body()
+			for bl := range body {
+				for _, in := range bl.Instrs {
+					c, ok := in.(*ssa.Call)
+					if !ok {
+						continue
+					}
+					collects := c.Call.IsInvoke() && nm(c.Call.Method) == "ChildrenByType"
+					if g := c.Call.StaticCallee(); g != nil && g.Blocks != nil {
+						for h := range calleesDeep(g, 2) {
+							if nm(h) == "AddEdge" {
+								collects = true
+							}
 						}
 					}
-					return true
-				})
-				if adds {
-					covers = true
+					if !collects {
+						continue
+					}
+					every := true
+					for _, lt := range l.Latches {
+						if !bl.Dominates(lt) {
+							// a latch of an inner loop that the collecting block itself dominates is fine
+							every = false
+						}
+					}
+					// the collecting call may sit before an inner loop whose latch is also a predecessor of this header? no: inner latches belong to the inner header
+					if every {
+						covers = true
+					}
 				}
 			}
 		}
-		return true
-	})
-	if !covers && len(allCallsTo(p, ifd.Body, vmi)) > 0 {
-		covers = true // follows includes recursively
 	}
 	r.Check(covers, "R11.3", "VerifyModuleIncludes covers every submodule", ifd.Pos(), "range over all submodules of the module, adding each one's include edges",
 		"the include graph handed to the cycle check no longer contains the includes of every submodule: a cycle among transitively included submodules is accepted (and a grouping cycle across them overflows the stack)")
